@@ -162,6 +162,8 @@ fn bytes_of(dec: &str, tok: &str, t: &Tab, out: &mut Vec<u8>) -> bool {
             | "true" | "Max-Age=" | "max-age=" | "Max-Age" | "Path=" | "Expires=" | "Domain=" | "Secure" | "HttpOnly" | "SameSite=" | "Lax" | "Foo" => tok,
         "1" => t.one, "x" => t.x, "U8" => t.u8c, "DQ" => "\"", "CRLF" => "\r\n", "CR" => "\r", "LF" => "\n", "NUL" => "\0",
         "HUGE" => t.huge, "9x20" => "99999999999999999999",
+        "LONG" => { for _ in 0..90 { out.extend_from_slice(b"%E3%81%82") } return true }
+        _ if tok.starts_with("DEEP:") => { let piece = tok[5..].as_bytes(); let n = if piece.len() == 1 { 200_000 } else { 100_000 }; for _ in 0..n { out.extend_from_slice(piece) } return true }
         "HI" => { out.push(t.hi); return true }
         _ => return false,
     };
@@ -324,8 +326,8 @@ const PCT_TAGS: &[&str] = &["decode_utf8", "decode", "path.str", "query.iter", "
 pub fn gen(rng: &mut Rng, i: usize) -> Value {
     let dec = *rng.pick(&["urlenc", "urlenc", "cookie", "cookie", "multipart", "multipart", "setcookie", "pct"]);
     let toks: &[&str] = match dec {
-        "urlenc" => &["ka", "kz", "=", "&", "1", "x", "true", ",", "%41", "-", ".", "+", "%C3%A9", "e", "%", "%4", "%G1", "%FF", "%C3", "HI", "NUL"],
-        "cookie" => &["ka", "kz", "=", "; ", ";", " ", "1", "x", "true", "%41", "-", ".", "%C3%A9", "DQ", "%", "%G1", "%FF", "%C3", "U8", "&", "("],
+        "urlenc" => &["ka", "kz", "=", "&", "1", "x", "true", ",", "%41", "LONG", "-", ".", "+", "%C3%A9", "e", "%", "%4", "%G1", "%FF", "%C3", "HI", "NUL"],
+        "cookie" => &["ka", "kz", "=", "; ", ";", " ", "1", "x", "true", "%41", "LONG", "-", ".", "%C3%A9", "DQ", "%", "%G1", "%FF", "%C3", "U8", "&", "("],
         "multipart" => &["P:text", "P:file", "P:filect", "P:conv", "P:nocd", "P:noblank", "P:badhdr", "P:noquote", "P:lfonly", "P:mixed", "P:hiname", "P:nofnquote", "P:openquote", "P:ctnoval",
                          "N:text", "N:file", "N:filect", "N:conv", "N:nocd", "N:noblank", "N:lfonly", "N:openquote", "c", "CR", "LF", "-", "HI", "D", "D", "D", "D:other", "B", "END", "END", "CRLF"],
         "setcookie" => &["n", "=", "v", "%41", "DQ", "%C3%A9", "; ", ";", "%FF", "%", "%G1", "Max-Age=", "max-age=", "Max-Age", "1", "x", " ", "-", "HUGE", "HI", "Path=", "Expires=", "Domain=", "/", "Secure", "HttpOnly", "SameSite=", "Lax", "Foo"],
